@@ -389,3 +389,20 @@ m("x7-neutral-init-order", "src/barrier.c",
   """    p_newbarrier->counter = 0;
     p_newbarrier->num_waiters = arg_num_waiters;
     ABTD_spinlock_clear(&p_newbarrier->lock);""", None, props=["C08", "C18"])
+
+# ---- X9
+m("x9-num-blocked-load-store", "src/include/abti_pool.h",
+  """    ABTD_atomic_fetch_add_int32(&p_pool->num_blocked, 1);""",
+  """    ABTD_atomic_release_store_int32(&p_pool->num_blocked,
+                                    ABTD_atomic_acquire_load_int32(
+                                        &p_pool->num_blocked) + 1);""", "C06.X9")
+
+# round-6 seeds that every check missed on first contact (ids -K/-L)
+patch("s-c03k-downcast-null-test", "seeded/C03-K/patch.diff", "C03.R12")
+patch("s-c12l-exit-guard-main-sched", "seeded/C12-L/patch.diff", "C12.R5")
+patch("s-c14k-builtin-unit-shortcut", "seeded/C14-K/patch.diff", "C14.R10")
+patch("s-c18k-partial-bucket-full-count", "seeded/C18-K/patch.diff", "C18.R11")
+patch("s-c19k-timespec-int64", "seeded/C19-K/patch.diff", "C19.R9")
+patch("s-c20k-packed-stride", "seeded/C20-K/patch.diff", "C20.R11")
+patch("s-c14l-stale-pool-push", "seeded/C14-L/patch.diff", "C14.R11")
+patch("s-c04k-futex-sample-after-release", "seeded/C04-K/patch.diff", "C04.X3")
